@@ -5,13 +5,15 @@
    (the same judgement applied to every frame real clients received from a running MOSN). *)
 (*    q: the client's record of the outstanding request the frame's id names on that connection:
         tok   its unique token;  nil  the value of an absent token;
+        body  what the body of the answer the upstream produced for it holds: tok, or nil when the upstream answered
+              without a body (a body-less answer must arrive body-less, whatever the connection carried before it);
         errs  tokens of the error answers (error status, token in header and body) the upstream produced for it. *)
 Explained(q) == q.short \/ q.unstable \/ q.closedSince \/ q.errs # {}
 Verdict(hasq, second, q, ok, htok, btok, produced) ==
   IF ~hasq THEN (IF second THEN {"second-reply-for-request"} ELSE {"reply-for-unknown-id"})
   ELSE (IF ok /\ htok # q.tok THEN {"foreign-response-header"} ELSE {}) \cup
-       (IF ok /\ btok # q.tok THEN {"foreign-response-body"} ELSE {}) \cup
-       (IF ok /\ htok = q.tok /\ btok = q.tok /\ ~produced THEN {"response-never-produced-upstream"} ELSE {}) \cup
+       (IF ok /\ btok # q.body THEN {"foreign-response-body"} ELSE {}) \cup
+       (IF ok /\ htok = q.tok /\ btok = q.body /\ ~produced THEN {"response-never-produced-upstream"} ELSE {}) \cup
        (IF ~ok /\ ~Explained(q) THEN {"error-reply-for-healthy-request"} ELSE {}) \cup
        \* an error reply is either the proxy's own (no part of any upstream answer) or one upstream error answer, whole
        (IF ~ok /\ htok # btok THEN {"error-reply-header-and-body-from-different-exchanges"} ELSE {}) \cup
